@@ -46,6 +46,11 @@ _p('C15', 'other', 'merge splice law; in: dispatch and numeric membership; bound
 _p('C16', 'other', 'cat = concatenation of string forms (bounded operands); substr safety unbounded (Verus), output by character (bounded shapes).')
 
 
+# properties registered in MANIFEST.json (the others are listed under not_applicable with the reason below)
+CLAIMED = ['C02', 'C03', 'C06', 'C07', 'C08', 'C09', 'C10', 'C11']
+NOT_YET = {}
+
+
 def assumption_scan(prop, results):
     """Mechanical list of every assumption in force for this run."""
     out = []
